@@ -15,8 +15,10 @@ CLAIMED = {
          "Programs are not symbolic (parser/builder outside, DESIGN 7); sub-expressions are mapping stubs; control scenarios are enumerated as a symbolic "
          "scenario number per solver run while payload is symbolic (DESIGN 2.5); closures/let/format are not covered by this check.", '6/C01'),
  'C04': ("Three-valued predicate kernel: for all 3x3 outcomes, ?X and !X are complementary and both fail to hold when X reports an error "
-         "(pred_result operators, pred_not/and/or::result, maybe_invert); the stack-preservation clauses are asserted inside the C01 harnesses "
-         "(c01_assert/c01_subx/c01_capture: the caller's stack is intact below what is added).",
+         "(pred_result operators, pred_not/and/or::result, maybe_invert); an overloaded word that matches no overload reports an error and then neither "
+         "?word nor !word holds (overload_pred::result over the real overload table); the stack-preservation clauses are checked on the real "
+         "op_assert / op_subx / op_capture between protocol stubs, including a sub-expression that overwrites its copy of the stack "
+         "(c01_assert, c01_subx, c01_subx_mut, c01_capture: the caller's stack is intact below what is added).",
          "Operand predicates are stubs; infix desugaring in the grammar and the DWARF ?words are outside (DESIGN 7).", '6/C04'),
  'C08': ("All of int.cc is checked for ALL operand pairs (64-bit payload x signedness on both sides, i.e. both representations of every non-negative "
          "value): +, -, unary -, six comparisons, * against an exact 128-bit oracle; / and % against the defining property of floor division "
@@ -26,7 +28,8 @@ CLAIMED = {
          "simple_arith_op are not covered yet.", '6/C08'),
  'C09': ("constant::operator< and the derived ==, !=, <=, >=, > over all pairs and triples of constants (64-bit payload x signedness x 16 real domain "
          "objects incl. dec/hex/oct/bin/bool/line/column and the ELF STT/STB/STV domains of 5 machines, + no domain): trichotomy, symmetry, "
-         "reflexivity, transitivity of < and ==, congruence, by-value comparison of arithmetic domains, unrelated named domains never equal.",
+         "reflexivity, transitivity of < and ==, congruence, by-value comparison of arithmetic domains, unrelated named domains never equal. Address sets: "
+         "value_aset::cmp over triples of sets with <=2 runs and fully symbolic 64-bit bounds is a total order, equal exactly for equal sets.",
          "The address order of the domain objects is the native build's (read at check time); strings, sequences, address sets, DIEs, stacks and the "
          "alias table of comparison words are outside this check.", '6/C09'),
  'C11': ("Kernel of the clause 'word behaviour depends only on the values near the top of the stack': stack::push/pop/drop keep the cached type "
@@ -35,7 +38,8 @@ CLAIMED = {
          "The word implementations themselves (length, elem, relem, add, ?find, ?starts, ?ends, ?match, value, hex/dec/oct/bin, type, pos, shuffles) "
          "are NOT covered: they are overload instantiations over std::string / std::vector heaps that were not reached (DESIGN 0.4).", '0.3'),
  'C13': ("(1) layout::reserve/add_union: every series of 4 reservations (size 1..64, alignment 1..16) yields aligned, pairwise disjoint locations "
-         "inside size(), add_union takes the maximum -- no two live states overlap in the shared area. (2) The real ALT / OR (thorough: also "
+         "inside size(), add_union takes the maximum -- no two live states overlap in the shared area. (1b) pred_subx_any / scon_guard destroy the state "
+         "of a sub-expression exactly once, also when the sub-expression throws. (2) The real ALT / OR (thorough: also "
          "if-then-else, nested ALT) operator graphs with the result set abandoned after 0..4 pulls and torn down, every valid control scenario, "
          "under CBMC's pointer/bounds/use-after-free checks, --memory-leak-check and the translator's UB assertions; every other claimed "
          "harness runs under the same memory checks.",
